@@ -893,7 +893,12 @@ def native_method_call(I, name, recv, args, kw):
                     'join', 'hex'):
             return Opaque(kind, 'str.' + name, taint_of(recv) | taint_of(list(args)))
         if name in ('startswith', 'endswith', 'isdigit', 'isalpha'):
-            return SBool(fresh(name, z3.BoolSort()))
+            # uninterpreted predicate of (receiver, arguments): same question, same answer
+            kid = (name, key_identity(I, recv)[0]) + tuple(key_identity(I, a)[0] for a in args)
+            memo = I.path.ghost.setdefault('strpred', {})
+            if kid not in memo:
+                memo[kid] = SBool(fresh(name, z3.BoolSort()))
+            return memo[kid]
         if name in ('split', 'rsplit', 'splitlines'):
             return Opaque('list', 'str.' + name, taint_of(recv))
         if name in ('find', 'rfind', 'index', 'count'):
